@@ -14,6 +14,17 @@ fn main() {
       println!("{}", serde_json::json!({"lang": util::lang_name(l), "n": p.nodes}));
     }
     "drive" => drive(&args[2..]),
+    "universe" => {
+      // agv universe --mode carrier|corpus|both [--corpus d] [--seed n] [--tier t] --out f
+      let a = &args[2..];
+      rules::universe(
+        opt(a, "--mode").unwrap_or("both"),
+        opt(a, "--corpus").unwrap_or("/verif/corpus"),
+        opt(a, "--seed").and_then(|s| s.parse().ok()).unwrap_or(0),
+        opt(a, "--tier") == Some("thorough"),
+        opt(a, "--out").expect("--out"),
+      )
+    }
     _ => {
       eprintln!("usage: agv <project|...>");
       std::process::exit(2);
@@ -36,6 +47,7 @@ fn drive(args: &[String]) {
   match prop.as_str() {
     "c19" => c19::drive(vectors, corpus, seed, out, thorough),
     "c02" | "c03" => c03::drive(&prop, vectors, opt(args, "--vectors2"), corpus, seed, out, thorough),
+    "rules" => rules::drive(opt(args, "--universe").expect("--universe"), vectors.expect("--vectors"), out),
     "c20" => c20::drive(vectors.expect("--vectors"), out),
     _ => {
       eprintln!("unknown property {prop}");
